@@ -4,6 +4,7 @@ import (
 	"bytes"
 	"encoding/json"
 	"fmt"
+	"github.com/cosmos/cosmos-sdk/codec"
 	"strings"
 	"time"
 
@@ -212,8 +213,11 @@ func c08System(base string) *explore.System {
 		Ops:    ops,
 		Clone:  func(m any) any { return m },
 		Fresh: func() (*world.World, any) {
-			if base == "empty" {
+			switch base {
+			case "empty":
 				return world.New(world.Options{Accounts: accounts}), nil
+			case "bulk":
+				return world.New(world.Options{Accounts: accounts, Mutate: c08BulkGenesis(e)}), nil
 			}
 			return populated(e), nil
 		},
@@ -246,6 +250,40 @@ func c08System(base string) *explore.System {
 	return sys
 }
 
+// c08BulkGenesis: more than one default page (100) of everything: 120 DIDs (some tombstoned), 120 topics under one owner
+// with a writer and a record each, 120 denoms of alternating owners with one token each.
+func c08BulkGenesis(e *domEnv) func(gs map[string]json.RawMessage, cdc codec.Codec) {
+	return func(gs map[string]json.RawMessage, cdc codec.Codec) {
+		docs := bulkDIDs(e.DidKey, 120)
+		i := 0
+		for _, k := range sortedKeys(docs) {
+			if i%17 == 16 {
+				docs[k] = &didtypes.DIDDocumentWithSeq{Document: &didtypes.DIDDocument{}, Sequence: 2} // tombstone
+			}
+			i++
+		}
+		gs["did"] = cdc.MustMarshalJSON(&didtypes.GenesisState{Documents: docs})
+		ag := aoltypes.GenesisState{Owners: map[string]*aoltypes.Owner{e.A.Bech: {TotalTopics: 120}}, Topics: map[string]*aoltypes.Topic{},
+			Writers: map[string]*aoltypes.Writer{}, Records: map[string]*aoltypes.Record{}}
+		var pg pnfttypes.GenesisState
+		for i := 0; i < 120; i++ {
+			tn := fmt.Sprintf("bulk-%03d", i)
+			ag.Topics[e.A.Bech+"/"+tn] = &aoltypes.Topic{Description: tn, TotalWriters: 1, TotalRecords: 1}
+			ag.Writers[e.A.Bech+"/"+tn+"/"+e.W.Bech] = &aoltypes.Writer{Moniker: "w", NanoTimestamp: 11}
+			ag.Records[e.A.Bech+"/"+tn+"/0"] = &aoltypes.Record{Key: []byte(tn), Value: []byte("v"), NanoTimestamp: 12, WriterAddress: e.W.Bech}
+			owner := e.A
+			if i%2 == 1 {
+				owner = e.B
+			}
+			dn := fmt.Sprintf("den%03d", i)
+			pg.Denoms = append(pg.Denoms, &pnfttypes.Denom{Id: dn, Name: "n", Symbol: "S", Owner: owner.Bech})
+			pg.Pnfts = append(pg.Pnfts, &pnfttypes.Pnft{DenomId: dn, Id: "t", Name: "tok", Creator: owner.Bech, Owner: e.W.Bech, CreatedAt: world.BaseTime})
+		}
+		gs["aol"] = cdc.MustMarshalJSON(&ag)
+		gs["pnft"] = cdc.MustMarshalJSON(&pg)
+	}
+}
+
 func C08(t Tier) int {
 	run := report.NewRun("C08", t.Name, "model_checking", "E1+E2")
 	dl := deadline(t, 150*time.Second, 15*time.Minute)
@@ -254,9 +292,10 @@ func C08(t Tier) int {
 		depth = map[string]int{"empty": 4, "populated": 4}
 	}
 	totalStates, totalTrans := 0, int64(0)
-	for _, base := range []string{"empty", "populated"} {
+	depth["bulk"] = 1
+	for _, base := range []string{"empty", "populated", "bulk"} {
 		sys := c08System(base)
-		RunGraph(run, sys, []explore.Bounds{{Depth: depth[base], V: 1, Deadline: dl}}, 6)
+		RunGraph(run, sys, []explore.Bounds{{Depth: depth[base], V: 1, Deadline: dl}}, 4)
 		totalStates += run.Coverage["states"].(int)
 		totalTrans += run.Coverage["transitions"].(int64)
 		run.Coverage["states_"+base] = run.Coverage["states"]
